@@ -187,8 +187,9 @@ def _merged_part(chk, b):
 class BadSeq:
   """Random-access data 0..n-1 whose positions in `bad` raise when read, alone or inside a slice."""
 
-  def __init__(self, n, bad):
+  def __init__(self, n, bad, sliceable=True):
     self.n, self.bad = n, set(bad)
+    self.sliceable = sliceable
     self.touched = set()
 
   def __len__(self):
@@ -196,6 +197,8 @@ class BadSeq:
 
   def __getitem__(self, k):
     if isinstance(k, slice):
+      if not self.sliceable:
+        raise TypeError('integer indices only')
       idx = list(range(*k.indices(self.n)))
       # positions actually requested, also beyond len (a reader must not ask for them)
       lo = k.start or 0
@@ -215,7 +218,7 @@ class BadSeq:
 def _replay_range(chk, h):
   from ml_metrics._src.utils import iter_utils
   bad = h['bad'] if isinstance(h['bad'], list) else []
-  data = BadSeq(h['len'], bad)
+  data = BadSeq(h['len'], bad, sliceable=h.get('sliceable', True))
   ctx = dict(kind='rangeiter', history=h)
   try:
     it = iter_utils._RangeIterator(data, h['start'], h['stop'], h['bs'])
